@@ -52,10 +52,14 @@ Resync(s, lv) == [s EXCEPT !.lvl = [p \in UnivSet |-> lv[UnivIdx(p)]]]
 
 (* driver preconditions on top of the API's: everything stays inside the universe *)
 TPre(s, ev) ==
-  /\ ev.op \in {"set", "get", "create", "level", "enabled", "log", "logm"}
+  /\ ev.op \in {"set", "get", "create", "level", "enabled", "log", "logm", "acc"}
   /\ Pre(s, ev)
   /\ (ev.op \in {"set", "get"} => ev.loc \in UnivSet)
   /\ (ev.op = "create" => CreatePath(s, ev) \in UnivSet)
+
+(* the text a call emitted, whichever of the six sinks received it (WHICH sink is not in the
+   statement of C19: a right text on a wrong sink is the observation level-sink-routing) *)
+AllOut(out) == out[1] \o out[2] \o out[3] \o out[4] \o out[5] \o out[6]
 
 Reasons(s, ss, ev, e) ==
      (IF Proj(e.st) = ev.lv THEN {} ELSE {"levels"})
@@ -63,9 +67,38 @@ Reasons(s, ss, ev, e) ==
   \cup (IF ev.ret = e.ret THEN {} ELSE {"returned-level"})
   \cup (IF ev.op = "enabled" /\ ev.rb # e.rb THEN {"enabled-decision"} ELSE {})
   \cup (IF (ev.out # NoOut) = (e.out # NoOut) THEN {} ELSE {"emitted-iff-enabled"})
-  \cup (IF ev.out # NoOut /\ e.out # NoOut /\ ev.out # e.out THEN {"text"} ELSE {})
+  \cup (IF ev.out # NoOut /\ e.out # NoOut /\ AllOut(ev.out) # AllOut(e.out) THEN {"text"} ELSE {})
   \cup (IF taint \/ \A i \in 1..Len(univ) : ev.lv[i] = Latest(ss, s.root, univ[i])
         THEN {} ELSE {"latest-prefix-wins"})
+
+(* SCOPE.  A reason is IN SCOPE (may become a rejected event / VIOLATION) only if the statement of
+   property C19 covers it; everything else added in the extension round is OBSERVED ONLY: judged,
+   counted, reported in the evidence (coverage.observations) and the notes, never a verdict.
+   In scope, with the clause of the statement:
+     levels, object-levels, returned-level, latest-prefix-wins
+                          "the level reported for a location ... equal[s] the level of the most
+                           recent set whose location is a prefix of it (the context's root level
+                           if there is none)"
+     enabled-decision     "and the enabled() decision of a log object equal ..."
+     emitted-iff-enabled  "a message is emitted exactly when its level is at least that level"
+     text                 "its text carries the location prefix and formatter chain in the
+                           documented order"
+     default-log          the same two clauses for a log object on a context built with
+                          default_level_streams() (emission and text; WHICH standard stream
+                          receives it is not in the statement: default-log-routing is observed only)
+     not-linearizable / lock-free-read-inexplicable (CSpec), tsan (check)
+                          "no data race and every observed level is one that some sequential
+                           ordering of the calls would produce"
+   Observed only (the statement does not mention them): level-sink-routing, macro-laziness,
+   accessor-*, and every
+   "rec" kind except the emission/text part of dlog. *)
+OpObs(s, ev, e) ==
+     (IF ev.out # e.out /\ AllOut(ev.out) = AllOut(e.out) THEN {"level-sink-routing"} ELSE {})
+  \cup (IF ev.op = "logm" /\ ~MacroEvalsOK(e.rb, ev.ev) THEN {"macro-laziness"} ELSE {})
+  \cup (IF ev.op = "acc" /\ ~(ev.hasf /\ ev.ft = ObjectFormatterText(s.obj[ev.o].fmt, s.obj[ev.o].path, ev.msg))
+        THEN {"accessor-formatter"} ELSE {})
+  \cup (IF ev.op = "acc" /\ ~ev.lss THEN {"accessor-level-streams"} ELSE {})
+  \cup (IF ev.op = "acc" /\ ev.si # ev.l THEN {"accessor-level-sink"} ELSE {})
 
 TInit ==
   /\ st = NewCtx(0, DefaultLf)
@@ -90,21 +123,83 @@ TOp ==
   /\ T[l].e = "op"
   /\ LET ev == T[l] IN
      IF ~TPre(st, ev)
-     THEN /\ bad' = Append(bad, [l |-> l, op |-> ev.op, why |-> {"HARNESS-PRECONDITION"}])
+     THEN /\ bad' = Append(bad, [l |-> l, op |-> ev.op, why |-> {"HARNESS-PRECONDITION"}, obs |-> {}])
           /\ UNCHANGED <<st, sets, taint>>
      ELSE LET e == Eff(st, ev)
               ss == IF ev.op = "set" THEN Append(sets, [loc |-> ev.loc, l |-> ev.l]) ELSE sets
               why == Reasons(st, ss, ev, e)
-          IN /\ bad' = IF why = {} THEN bad ELSE Append(bad, [l |-> l, op |-> ev.op, why |-> why])
+              obs == OpObs(st, ev, e)
+          IN /\ bad' = IF why = {} /\ obs = {} THEN bad ELSE Append(bad, [l |-> l, op |-> ev.op, why |-> why, obs |-> obs])
              /\ sets' = ss
              /\ taint' = (taint \/ why # {})
              /\ st' = IF Proj(e.st) = ev.lv THEN e.st ELSE Resync(e.st, ev.lv)
   /\ UNCHANGED univ
 
+(* independent call records ("e":"rec"): the rest of fcppt.log, judged against LogFormat.tla;
+   RecReasons are OBSERVED ONLY (see SCOPE above) *)
+FmtOf(g) ==
+  CASE g.k = 0 -> FNone
+    [] g.k = 1 -> FDefault(g.l)
+    [] g.k = 2 -> FInserter(g.pre, g.suf)
+    [] g.k = 3 -> (IF g.pre = <<>> THEN FNone ELSE FUser(g.pre))
+    [] g.k = 4 -> FPrefix(g.pre)
+
+LsSteps(steps) ==
+  [i \in 1..Len(steps) |->
+     IF steps[i].s = "log" THEN [s |-> "log", add |-> FmtOf(steps[i].add), msg |-> steps[i].msg] ELSE steps[i]]
+
+RecReasons(ev) ==
+  CASE ev.f \in {"to_string", "output"} ->
+         (IF ev.s = LevelToString(ev.l) THEN {} ELSE {"level-name"})
+    [] ev.f = "from_string" ->
+         (IF ev.r = LevelFromString(ev.s) THEN {} ELSE {"level-from-name"})
+    [] ev.f = "input" ->      \* enum/input.hpp: "In case this fails, the failbit of _stream is set."
+         (LET L == LevelFromString(ev.s) IN
+          IF L # NoLevel THEN (IF ev.ok /\ ev.r = L THEN {} ELSE {"level-input"})
+          ELSE (IF ~ev.ok THEN {} ELSE {"level-input-failbit"}))
+    [] ev.f = "default_stream" ->
+         (IF ev.which = DefaultStream(ev.l) THEN {} ELSE {"default-stream"})
+    [] ev.f = "dls" ->
+         (IF ev.which = DefaultStream(ev.l) /\ ev.has /\ ev.text = Apply(FDefault(ev.l), ev.msg)
+          THEN {} ELSE {"default-level-streams"})
+    [] ev.f = "dlog" ->      \* only WHICH standard stream received the text (emission and text: RecWhy)
+         (IF (ev.clog = <<>> \/ DefaultStream(ev.l) = 0) /\ (ev.cerr = <<>> \/ DefaultStream(ev.l) = 1)
+          THEN {} ELSE {"default-log-routing"})
+    [] ev.f = "chain" ->
+         (LET ch == Chain(FALSE, FmtOf(ev.p), FmtOf(ev.c)) IN
+          IF ev.has = (ch.k # 0) /\ (ev.has => ev.r = Apply(ch, ev.t)) THEN {} ELSE {"format-chain"})
+    [] ev.f = "fmt" ->
+         (IF ev.r = Apply(FmtOf(ev.g), ev.t) THEN {} ELSE {"format-function"})
+    [] ev.f = "time_stamp" ->  \* "prints a time stamp in front": only the deterministic part is judged
+         (IF IsSeqSuffix(ev.t, ev.r) /\ Len(ev.r) > Len(ev.t) THEN {} ELSE {"time-stamp"})
+    [] ev.f = "params" ->
+         (LET g == FmtOf(ev.g) IN
+          IF ev.rname = ev.name /\ ev.has = (~ev.nofn /\ g.k # 0) /\ (ev.has => ev.r = Apply(g, ev.t))
+          THEN {} ELSE {"parameters"})
+    [] ev.f = "level_stream" ->
+         (IF ev.res = LsRun(FALSE, FmtOf(ev.own), 1, LsSteps(ev.steps)) THEN {} ELSE {"level-stream-sink"})
+    [] OTHER -> {"unknown-record"}
+
+(* in scope: a message through a context with the default level streams is emitted exactly when
+   enabled, and its text is location prefix + default level formatter *)
+RecWhy(ev) ==
+  IF ev.f = "dlog"
+  THEN LET en == EnabledOp(ev.root, ev.l)
+           exp == IF en THEN LogText(<<>>, <<ev.name>>, DefaultLf[1], ev.l, ev.msg) ELSE <<>>
+       IN IF ev.clog \o ev.cerr = exp THEN {} ELSE {"default-log"}
+  ELSE {}
+
+TRec ==
+  /\ T[l].e = "rec"
+  /\ LET why == RecWhy(T[l])
+         obs == RecReasons(T[l])
+     IN bad' = IF why = {} /\ obs = {} THEN bad ELSE Append(bad, [l |-> l, op |-> T[l].f, why |-> why, obs |-> obs])
+  /\ UNCHANGED <<st, sets, univ, taint>>
+
 TNext ==
   /\ l <= Len(T)
   /\ l' = l + 1
-  /\ (TReset \/ TOp)
+  /\ (TReset \/ TOp \/ TRec)
   /\ UNCHANGED <<hist, pend, cand>>
 
 TSpec == TInit /\ [][TNext]_tvars
